@@ -7,8 +7,12 @@ import (
 
 	protocol "github.com/hujm2023/go-sms-protocol"
 	"github.com/hujm2023/go-sms-protocol/cmpp"
+	"github.com/hujm2023/go-sms-protocol/cmpp/cmpp20"
 	"github.com/hujm2023/go-sms-protocol/codec"
 	"github.com/hujm2023/go-sms-protocol/datacoding"
+	"github.com/hujm2023/go-sms-protocol/datacoding/gsm7encoding"
+	"github.com/hujm2023/go-sms-protocol/smgp/smgp30"
+	"github.com/hujm2023/go-sms-protocol/smpp/smpp34"
 )
 
 // Family "mem" (C12): histories of library calls with the caller scribbling over
@@ -109,7 +113,7 @@ func runMem(c Case, tr *Tracer) {
 	cm, sm := codec.NewCMPPCodec(), codec.NewSMPPCodec()
 	conn := &scriptedConn{fault: "eof"}
 	for s := 0; s < steps; s++ {
-		switch rr.Intn(7) {
+		switch rr.Intn(10) {
 		case 0, 1: // encode, then the caller scribbles over the returned bytes
 			tn := typeNames[rr.Intn(len(typeNames))]
 			a := defaultAssign(rr, tn, true)
@@ -207,6 +211,155 @@ func runMem(c Case, tr *Tracer) {
 				add(lr)
 				emit(Ev{"ev": "Ucs2", "r": id, "same": s1 == cmpp.Utf8ToUcs2Back(txt)}, "Ucs2")
 			}
+		case 7: // text codecs and the GSM 7-bit function set: byte results belong to the caller
+			txt := textFrom(rr, 1+rr.Intn(120), "abc XYZ 0189@[]{}€é\f")
+			var out, ref []byte
+			var err error
+			name := ""
+			switch rr.Intn(10) {
+			case 0, 4, 5:
+				name = "gsm7encoding.Decode"
+				sep, e := gsm7encoding.Encode(txt)
+				if e != nil {
+					continue
+				}
+				out, err = gsm7encoding.Decode(sep)
+				ref = []byte(txt)
+			case 1:
+				name = "gsm7encoding.Encode"
+				out, err = gsm7encoding.Encode(txt)
+				ref, _ = gsm7encoding.Encode(txt)
+			case 2:
+				name = "gsm7encoding.Pack"
+				sep, e := gsm7encoding.Encode(txt)
+				if e != nil {
+					continue
+				}
+				out = gsm7encoding.Pack(sep)
+				ref = gsm7encoding.Pack(sep)
+			case 3:
+				name = "gsm7encoding.Unpack"
+				sep, e := gsm7encoding.Encode(txt)
+				if e != nil {
+					continue
+				}
+				out = gsm7encoding.Unpack(gsm7encoding.Pack(sep))
+				ref = gsm7encoding.Unpack(gsm7encoding.Pack(sep))
+			default:
+				mk := []func(string) datacoding.Codec{
+					func(x string) datacoding.Codec { return datacoding.GSM7Packed(x) },
+					func(x string) datacoding.Codec { return datacoding.GSM7Unpacked(x) },
+					func(x string) datacoding.Codec { return datacoding.UCS2(x) },
+					func(x string) datacoding.Codec { return datacoding.GB18030(x) },
+					func(x string) datacoding.Codec { return datacoding.Latin1(x) },
+					func(x string) datacoding.Codec { return datacoding.Ascii(x) },
+				}[rr.Intn(6)]
+				switch mk("").Name() {
+				case datacoding.DataCodingUcs2, datacoding.DataCodingGB18030:
+					txt = randText(rr, 1+rr.Intn(120))
+				case datacoding.DataCodingASCII, datacoding.DataCodingLatin1:
+					txt = textFrom(rr, 1+rr.Intn(120), "abc XYZ 0189@[]{}~")
+				}
+				enc, e := mk(txt).Encode()
+				if e != nil {
+					continue
+				}
+				if rr.Intn(2) == 0 {
+					name = string(mk("").Name()) + ".Encode"
+					out, ref = enc, nil
+					ref, _ = mk(txt).Encode()
+				} else {
+					name = string(mk("").Name()) + ".Decode"
+					out, err = mk(string(enc)).Decode()
+					ref, _ = mk(string(enc)).Decode()
+				}
+			}
+			if err != nil {
+				continue
+			}
+			id := nextID
+			nextID++
+			lr := &liveResult{id: id, kind: "codec", tn: name, owned: out}
+			lr.read = func() string { return string(lr.owned) }
+			add(lr)
+			emit(Ev{"ev": "Codec", "r": id, "fn": name, "same": string(out) == string(ref)}, "Codec")
+			full := out[:cap(out)]
+			for i := range full {
+				full[i] = 0xDD
+			}
+			lr.snap = lr.read()
+			emit(Ev{"ev": "ScribbleResult", "r": id}, "ScribbleResult")
+		case 8: // the batch encoder, asked again on the same builder: every Build hands out memory of its own
+			txt := randText(rr, 1+rr.Intn(300))
+			proto := []string{"CMPP", "SMPP"}[rr.Intn(2)]
+			var pdc []datacoding.ProtocolDataCoding
+			for _, x := range batchValid[proto] {
+				if rr.Intn(2) == 0 {
+					pdc = append(pdc, toPDC(proto, x))
+				}
+			}
+			b := protocol.NewBatchDataCodingEncoder().Protocol(protocol.Protocol(proto)).Content(txt, byte(rr.Intn(256))).DataCodings(pdc)
+			var first string
+			for k := 0; k < 2; k++ {
+				parts, _, err := b.Build(context.Background())
+				if err != nil {
+					break
+				}
+				id := nextID
+				nextID++
+				lr := &liveResult{id: id, kind: "build", tn: proto}
+				held := parts
+				lr.read = func() string { return snapJSON(held) }
+				add(lr)
+				if k == 0 {
+					first = lr.snap
+				}
+				emit(Ev{"ev": "Build", "r": id, "same": lr.snap == first}, "Build")
+				for _, p := range parts {
+					full := p[:cap(p)]
+					for i := range full {
+						full[i] = 0xDD
+					}
+				}
+				lr.snap = lr.read()
+				emit(Ev{"ev": "ScribbleResult", "r": id}, "ScribbleResult")
+			}
+		case 9: // packet-building helpers: each call hands out a packet of its own
+			seq := rr.Uint32()
+			fns := []struct {
+				n string
+				f func(uint32) []byte
+			}{
+				{"cmpp20.NewTerminatePacket", cmpp20.NewTerminatePacket}, {"cmpp20.NewActiveTestPacket", cmpp20.NewActiveTestPacket},
+				{"smpp34.NewEnquireLinkReqBytes", smpp34.NewEnquireLinkReqBytes}, {"smpp34.NewEnquireLinkRespBytes", smpp34.NewEnquireLinkRespBytes},
+				{"smpp34.NewUnBindRespBytes", smpp34.NewUnBindRespBytes}, {"smpp34.NewDeliverySMRespBytes", smpp34.NewDeliverySMRespBytes},
+				{"smpp34.NewUnBindBytes", smpp34.NewUnBindBytes}, {"smgp30.NewActiveTestPacket", smgp30.NewActiveTestPacket},
+			}
+			h := fns[rr.Intn(len(fns))]
+			n := 1 + rr.Intn(2)
+			for k := 0; k < n; k++ {
+				out := h.f(seq + uint32(k))
+				ref := h.f(seq + uint32(k))
+				id := nextID
+				nextID++
+				lr := &liveResult{id: id, kind: "helper", tn: h.n, owned: out}
+				lr.read = func() string { return string(lr.owned) }
+				off := 8 // sequence identifier: CMPP / SMGP octets 8..11, SMPP octets 12..15
+				if h.n[:4] == "smpp" {
+					off = 12
+				}
+				same := string(out) == string(ref) && len(out) >= off+4 && beUint(out[off:off+4]) == uint64(seq+uint32(k))
+				add(lr)
+				emit(Ev{"ev": "Helper", "r": id, "fn": h.n, "same": same}, "Helper")
+				if rr.Intn(2) == 0 {
+					full := out[:cap(out)]
+					for i := range full {
+						full[i] = 0xDD
+					}
+					lr.snap = lr.read()
+					emit(Ev{"ev": "ScribbleResult", "r": id}, "ScribbleResult")
+				}
+			}
 		case 6: // zero-copy frame extractor + decoder, then the reader refills
 			tn := typeNames[1+rr.Intn(len(typeNames)-1)]
 			a := defaultAssign(rr, tn, true)
@@ -250,8 +403,12 @@ func runMem(c Case, tr *Tracer) {
 }
 
 func randText(r *rand.Rand, n int) string {
+	return textFrom(r, n, "abc XYZ 0189@[]{}€é中文😀")
+}
+
+func textFrom(r *rand.Rand, n int, chars string) string {
 	rs := make([]rune, n)
-	pool := []rune("abc XYZ 0189@[]{}€é中文😀")
+	pool := []rune(chars)
 	for i := range rs {
 		rs[i] = pool[r.Intn(len(pool))]
 	}
